@@ -110,15 +110,18 @@ func (lb *LoadBalancer) Dispose() {
 func (lb *LoadBalancer) DrainAll(timeout time.Duration) {
 	var wg sync.WaitGroup
 	wg.Add(len(lb.all))
+	verifEvent("drainall", lb, &wg)
 
 	for _, target := range lb.all {
 		go func() {
+			verifEvent("drain-child", target, &wg)
 			target.Drain(timeout)
 			wg.Done()
 		}()
 	}
 
 	wg.Wait()
+	verifEvent("drainall-done", lb, &wg)
 }
 
 func (lb *LoadBalancer) ServeHTTP(w http.ResponseWriter, r *http.Request) {
